@@ -270,5 +270,5 @@ def client_plan(seed, argv, profile, port=2222, net=None, at_us=1500, knobs=None
     return plan
 
 
-def case_rng(seed, pid, idx, purpose='case'):
-    return subrng(seed, pid, idx, purpose)
+def case_rng(seed, pid, *idx):
+    return subrng(seed, pid, *idx)
